@@ -9,6 +9,7 @@ from checks import phys
 from refs import reference as ref
 
 ID = 'C16'
+HASHSEED_EVERY = {'quick': 150, 'thorough': 1000}     # one case in so many is also run under other string-hash seeds (harness._run_hashseed_invariant)
 BUDGET = {'quick': 3000, 'thorough': 200000}
 WALL = {'quick': 120, 'thorough': 2400}
 CHUNK = 8
@@ -42,7 +43,7 @@ def gen(rng, tier, idx):
     return dict(P=max(g[0] * g[1] for g in grids), ckw=ckw, grids=grids,
                 storage=rng.choice(['complex128', 'float64']), fn=rng.choice(['pert', 'pert', 'rho']),
                 data=rng.choice(['random', 'random', 'equilibrium', 'combo', 'scaled']),
-                dseed=rng.randrange(1 << 30), second_finder=rng.random() < 0.4, again=rng.random() < 0.4, sched=sched)
+                dseed=rng.randrange(1 << 30), second_finder=rng.random() < 0.4, again=rng.random() < 0.4, regrid=rng.random() < 0.4, sched=sched)
 
 
 def make_field(case, eta, cdict):
@@ -67,8 +68,13 @@ def run(case, tape=None):
     for g in case['grids']:
         P = g[0] * g[1]
         holder = {}
+        alt = None
+        if case.get('regrid'):
+            cand = [a for a in phys.admissible_grids(npts) if a[0] * a[1] == P and list(a) != list(g)]
+            if cand:
+                alt = cand[case['dseed'] % len(cand)]
 
-        def rank_fn(comm, rank):
+        def rank_fn(comm, rank, alt=alt):
             from pygyro.model.layout import getLayoutHandler
             from pygyro.model.grid import Grid
             from pygyro.poisson.poisson_solver import DensityFinder
@@ -110,7 +116,22 @@ def run(case, tape=None):
                 else:
                     df.getPerturbedRho(f, rho)
                 again = phys.block(rho)
-            return dict(rho=out, again=again, eta=eta if rank == 0 else None,
+            other = None
+            if alt is not None:
+                # the same finder on a distribution function distributed over another process grid of the same
+                # communicator (same layout names): whatever the finder keeps must follow the grid it is handed
+                h4 = getLayoutHandler(comm, dict(phys.STD_LAYOUTS), list(alt), f.eta_grid)
+                f_b = Grid(f.eta_grid, [f.getSpline(i) for i in range(4)],
+                           h4, 'v_parallel', comm)
+                F3 = make_field(dict(case, dseed=case['dseed'] + 626, data='scaled'), eta, cdict)
+                f_b.getAllData()[:] = cm.local(F3, f_b.getLayout('v_parallel'))
+                rem_b = getLayoutHandler(comm, {'v_parallel_2d': [0, 2, 1], 'mode_solve': [1, 2, 0]}, list(alt), f.eta_grid[:3])
+                rho_b = Grid(f.eta_grid[:3], f.getSpline(slice(0, 3)), rem_b, 'v_parallel_2d', comm,
+                             dtype=cm.np_dtype(case['storage']))
+                cm.poison(rho_b.getAllData())
+                df.getPerturbedRho(f_b, rho_b)
+                other = phys.block(rho_b)
+            return dict(rho=out, again=again, other=other, eta=eta if rank == 0 else None,
                         cdict=cdict if rank == 0 else None)
 
         def post(w, results):
@@ -138,7 +159,18 @@ def run(case, tape=None):
                 err2 = float(np.max(np.abs(got2 - want2))) / scale2
                 if not (err2 <= TOL):
                     raise OracleFail('density-differs', dict(grid=g, relerr=err2, why='second call on the same finder and grid'))
-            return dict(probes={'grid_%dx%d' % (g[0], g[1]): 1})
+            pr = {'grid_%dx%d' % (g[0], g[1]): 1}
+            if results[0].get('other') is not None:
+                F3 = make_field(dict(case, dseed=case['dseed'] + 626, data='scaled'), eta, cdict)
+                got3 = phys.assemble([r['other'] for r in results], npts[:3], 'rho (other process grid, same finder)')
+                want3 = ref.density_ref(F3, eta, cdict, True)
+                scale3 = float(np.max(np.abs(F3))) * float(eta[3][-1] - eta[3][0])
+                err3 = float(np.max(np.abs(got3 - want3))) / scale3
+                if not (err3 <= TOL):
+                    raise OracleFail('density-differs', dict(grid=g, relerr=err3,
+                                                             why='same finder used on a grid over another process grid'))
+                pr['finder_reused_on_other_process_grid'] = 1
+            return dict(probes=pr)
         with phys.force_procs({P: g}):
             res = M.run(P, case['sched'], rank_fn, post)
         if res['status'] != 'ok':
